@@ -1,3 +1,5 @@
+//go:build drv_csvapi || drv_all
+
 package main
 
 import (
